@@ -9,7 +9,7 @@ correspondence:  harness/h_p21.cc (read A; append B; [append C]; dump; write) vs
 oracle:          the statement evaluated on the file the implementation writes after Read + Append(s)
 """
 import concurrent.futures as cf
-import json, os, re, subprocess, time
+import json, os, random, re, subprocess, time
 from vlib import build as B, p21_gen as G
 from checks.c15 import build_schema, Harness, kv, parse_dump, check_schema_table, HARNESS
 
@@ -234,7 +234,7 @@ def oracle(files, reads, final_dump, written, schema=None):
     return None
 
 
-def run_case(ctx, h, m, schema, files, strict, workdir, tag, layout_rng=None):
+def run_case(ctx, h, m, schema, files, strict, workdir, tag, layout_seed=None):
     """returns (kind, detail) or None; kind in property/correspondence"""
     reads_h, reads_m = [], []
     h.cmd(f"reset {strict}")
@@ -242,7 +242,9 @@ def run_case(ctx, h, m, schema, files, strict, workdir, tag, layout_rng=None):
     dumps = []
     for fi, (scheme, pop) in enumerate(files):
         path = os.path.join(workdir, f"{tag}_{fi}.p21")
-        open(path, "w").write(G.render(schema.name, pop, layout_rng))
+        # layout_seed: white space / line breaks around every token (also inside aggregates, typed values, complex parts) and
+        # comments between instances, reproducible for shrinking and replay
+        open(path, "w").write(G.render(schema.name, pop, None if layout_seed is None else random.Random(layout_seed * 31 + fi)))
         op = "read" if fi == 0 else "append"
         reads_h.append(kv(h.cmd(f"{op} {path}")))
         reads_m.append(kv(m.cmd(f"{op} " + " | ".join(G.encode_inst(i, schema) for i in pop))))
@@ -369,8 +371,9 @@ def run(ctx):
             for ci in range(n_cases):
                 files = boundary_files(ctx.rng, s) if ci % 20 == 7 else gen_files(ctx.rng, s, quick)
                 strict = ci % 2
-                layout = ctx.rng if ci % 5 == 4 else None
+                layout = ctx.rng.randrange(1 << 30) if ci % 3 == 2 else None
                 r = run_case(ctx, h, m, s, files, strict, wd, f"c{ci}", layout)
+                ctx.hist("layout", "white space everywhere" if layout is not None else "compact")
                 ctx.count(1, key=(s.name, ci))
                 ctx.hist("files per history", str(len(files)))
                 for sch, pop in files[1:]:
@@ -381,12 +384,12 @@ def run(ctx):
                 nref = sum(len(G.inst_refs(i)) for _, p in files[1:] for i in p)
                 ctx.hist("references in appended files", "0" if nref == 0 else "1-5" if nref <= 5 else "6+")
                 if r and r[0] == "property":
-                    bad = (r, files, strict, ci)
+                    bad = (r, files, strict, ci, layout)
                     break
                 if r and bad is None:
                     # model and code disagree while the oracle is satisfied: remember it, but keep looking for an input on
                     # which the implementation fails the property itself (FRAMEWORK: violation search first)
-                    first_disagreement = (r, files, strict, ci)
+                    first_disagreement = (r, files, strict, ci, layout)
                     bad_corr = first_disagreement
                     corr.append(bad_corr)
         finally:
@@ -396,15 +399,17 @@ def run(ctx):
         ctx.cov["correspondence"][s.name] = {"histories": ci + 1, "problem": bad[0][0] if bad else None,
                                              "disagreements": len(corr), "wall_s": round(time.time() - t, 1)}
         if bad:
-            (kind, what), files, strict, ci = bad
+            (kind, what), files, strict, ci, layout = bad
 
             def fails(fs, kind=kind):
-                rr = run_case(ctx, h, m, s, fs, strict, wd, "shr")
+                rr = run_case(ctx, h, m, s, fs, strict, wd, "shr", layout)
                 return rr is not None and rr[0] == kind
             mini = shrink(files, fails)
-            rr = run_case(ctx, h, m, s, mini, strict, wd, "shr") or (kind, what)
+            rr = run_case(ctx, h, m, s, mini, strict, wd, "shr", layout)
+            if not rr or rr[0] != kind:
+                rr = (kind, what)
             rep = {"schema_express": s.express(), "schema_name": s.name, "strict": strict,
-                   "files": [G.render(s.name, p) for _, p in mini],
+                   "files": [G.render(s.name, p, None if layout is None else random.Random(layout * 31 + fi)) for fi, (_, p) in enumerate(mini)],
                    "how": "exp2cxx the schema, link harness/h_p21.cc; `reset <strict>`, `read files[0]`, `append files[1..]`, `dump`, `write OUT 0`"}
             if kind == "property":
                 key = "append:" + ";".join(",".join(f"{i.id}{i.type_name()}" for i in p) for _, p in mini)
@@ -421,7 +426,7 @@ def run(ctx):
     ctx.cov["rule"] = ("histories read A; append B[; append C] over conforming closed populations of generated schemas "
                        "(all attribute kinds incl. references in plain attributes, entity aggregates, selects, select "
                        "aggregates, complex parts); id schemes: identical to the previous file, dense, sparse, around "
-                       "multiples of 1000, large; strict and lenient alternate; every 5th history with random layout/comments")
+                       "multiples of 1000, large, the int32 boundary; strict and lenient alternate; every 3rd history with white space / line breaks around every token incl. inside aggregates and comments between instances")
 
 
 def replay(ctx, path):
